@@ -94,6 +94,7 @@ class Run:
         self.thread_yields = []
         self.sched_choices = {}       # step index -> decisions taken
         self.race_records = {}        # key -> [(child key, ok)] (free steps)
+        self.prebuild_snap = None
         self.metadata_games = False
         # two different functions registered under one name: the cache is
         # keyed by the name, so "the same build from scratch" is not defined
@@ -199,6 +200,14 @@ class Run:
                         m[0] == 'stealth' for m in step['muts']):
                     self.metadata_games = True
                 for m in step['muts']:
+                    if m[0] == 'revert':
+                        # put a file back to the content it had before the
+                        # last build (somebody restores the original)
+                        snap = self.prebuild_snap or {}
+                        n = snap.get(self.sb.p(m[1]))
+                        if n is not None and n[0] == 'f':
+                            self.sb.apply_mutation(['write', m[1], n[1]])
+                        continue
                     self.sb.apply_mutation(m)
                 self.free_prev = None
                 self.log.append(['mutate', i])
@@ -360,6 +369,7 @@ class Run:
             self.metadata_games = True
         self.build_no = i
         pre = sb.snapshot()
+        self.prebuild_snap = pre
         prev, cache_node = self.prev_record(pre)
         if cache_node is not None and prev is None:
             raise Invalid('unknown cache content (use a refusal step)')
